@@ -236,6 +236,12 @@ func (g *G) ErrWrapItem() Item {
 			}
 			return
 		case "2":
+			if use == "discard" && op != "?:" { // statement position: both values are dropped
+				bx = append(bx, c.call+op)
+				bg = append(bg, fmt.Sprintf("if _, _, err := %s; err != nil {\n\t%s\n}", c.call, onErr))
+				labels = append(labels, "multi-value-discarded")
+				return
+			}
 			bx = append(bx, fmt.Sprintf("a, s = %s%s", c.call, op))
 			bg = append(bg, fmt.Sprintf("{\n\t%s, %s2, err := %s\n\tif err != nil {\n\t\t%s\n\t}\n\ta, s = %s, %s2\n}", tmp, tmp, c.call, onErr, tmp, tmp))
 			labels = append(labels, "multi-value")
@@ -258,6 +264,16 @@ func (g *G) ErrWrapItem() Item {
 			goVal = tmp
 		}
 		switch use {
+		case "discard":
+			if op == "?:" { // a defaulted value as a statement would be an unused value
+				bx = append(bx, fmt.Sprintf("%s = %s", target, wrapped))
+				bg = append(bg, fmt.Sprintf("%s%s = %s", goPre, target, goVal))
+				break
+			}
+			// value-yielding call in statement position (`file.write(b)?`): the value is dropped
+			bx = append(bx, wrapped)
+			bg = append(bg, fmt.Sprintf("%s_ = %s", goPre, goVal))
+			labels = append(labels, "value-discarded")
 		case "define":
 			n := g.Var("d")
 			bx = append(bx, fmt.Sprintf("%s := %s\n%s = %s", n, wrapped, target, n))
@@ -298,7 +314,7 @@ func (g *G) ErrWrapItem() Item {
 		f := fails()
 		anyFail = anyFail || f
 		failPct = 25 // later wraps fail less often so that they are reached
-		emit(g.wrapCall(sh, f), []string{"stmt", "define", "arg", "operand"}[g.Intn(4, "use")])
+		emit(g.wrapCall(sh, f), []string{"stmt", "define", "arg", "operand", "discard"}[g.Intn(5, "use")])
 	}
 	// a statement with two wraps of ints in one expression
 	if g.Chance(40, "double") {
@@ -337,6 +353,18 @@ func (g *G) ErrWrapItem() Item {
 			callX += ", "
 		}
 		callX += "which(err))\nflush(false)"
+		if g.Chance(40, "in-funclit") {
+			// `?` returns from the innermost function: here a function literal with an error result
+			// inside a named function that has none
+			labels = append(labels, "question-inside-funclit")
+			wrap := func(decl string) string {
+				lit := strings.Replace(decl, "func "+id+"() ", "fn := func() ", 1)
+				call := strings.Replace(strings.TrimSuffix(callX, "\nflush(false)"), id+"()", "fn()", 1)
+				return fmt.Sprintf("func %s() int {\n%s\n%s\n\treturn 0\n}", id, indent(lit), indent(call))
+			}
+			declX, declG = wrap(declX), wrap(declG)
+			callX = "_ = " + id + "()\nflush(false)"
+		}
 	default:
 		// `!` and `?:` work anywhere: run inside a function literal with a recover
 		inLambda := g.Chance(35, "in-overloaded-lambda")
